@@ -1,7 +1,1270 @@
 package main
 
-import "verif/harness/internal/corr"
+import (
+	"bytes"
+	"errors"
+	"fmt"
+	"go/build"
+	"go/build/constraint"
+	"go/parser"
+	"go/scanner"
+	"go/token"
+	"io"
+	"math/rand"
+	"sort"
+	"strconv"
+	"strings"
+	"testing/iotest"
+	"unicode"
+
+	"github.com/rogpeppe/go-internal/imports"
+
+	"verif/harness/internal/corr"
+	"verif/harness/internal/mdl"
+)
+
+// ---------------------------------------------------------------- common
+
+func encTags(ts []string) string {
+	if len(ts) == 0 {
+		return "_"
+	}
+	hs := make([]string, len(ts))
+	for i, t := range ts {
+		hs[i] = corr.Hx([]byte(t))
+	}
+	return strings.Join(hs, ",")
+}
+
+func decTags(s string) []string {
+	if s == "_" {
+		return nil
+	}
+	var ts []string
+	for _, h := range strings.Split(s, ",") {
+		ts = append(ts, string(corr.Unhx(h)))
+	}
+	return ts
+}
+
+func tagMap(ts []string) map[string]bool {
+	m := map[string]bool{}
+	for _, t := range ts {
+		m[t] = true
+	}
+	return m
+}
+
+func encTagSets(sets [][]string) string {
+	ss := make([]string, len(sets))
+	for i, s := range sets {
+		ss[i] = encTags(s)
+	}
+	return strings.Join(ss, ";")
+}
+
+func tf(b bool) byte {
+	if b {
+		return 't'
+	}
+	return 'f'
+}
+
+func boolStr(b bool) string {
+	if b {
+		return "true"
+	}
+	return "false"
+}
+
+// sel is the statement's "tags selects t, with android also selecting linux".
+func sel(tags map[string]bool, t string) bool {
+	return tags[t] || (t == "linux" && tags["android"])
+}
+
+// ---------------------------------------------------------------- C19: MatchFile
+
+var mfSegs = []string{"x", "linux", "android", "windows", "amd64", "arm64", "test", ""}
+var mfExts = []string{".go", "", ".s.go"}
+var mfTagVocab = []string{"linux", "android", "windows", "amd64", "arm64"}
+
+func mfTagSets() [][]string {
+	var sets [][]string
+	for m := 0; m < 1<<len(mfTagVocab); m++ {
+		var s []string
+		for i, t := range mfTagVocab {
+			if m&(1<<i) != 0 {
+				s = append(s, t)
+			}
+		}
+		sets = append(sets, s)
+	}
+	return append(sets, []string{"*"})
+}
+
+func mfNames() []string {
+	var names []string
+	var rec func(prefix string, depth int)
+	rec = func(prefix string, depth int) {
+		for _, s := range mfSegs {
+			n := s
+			if depth > 0 {
+				n = prefix + "_" + s
+			}
+			for _, e := range mfExts {
+				names = append(names, n+e)
+			}
+			if depth < 3 {
+				rec(n, depth+1)
+			}
+		}
+	}
+	rec("", 0)
+	return names
+}
+
+// matchFileStatement is the property's wording, coded with suffix tests (independent of the
+// implementation's split/index walk and of the Lean model): false exactly when the stem (name up
+// to the first '.'), an optional final "_test" aside, ends in _GOOS, _GOARCH or _GOOS_GOARCH
+// with a known token that tags does not select.
+func matchFileStatement(name string, tags map[string]bool) bool {
+	if tags["*"] {
+		return true
+	}
+	stem := name
+	if i := strings.IndexByte(stem, '.'); i >= 0 {
+		stem = stem[:i]
+	}
+	stem = strings.TrimSuffix(stem, "_test")
+	for o := range imports.KnownOS {
+		if strings.HasSuffix(stem, "_"+o) && !sel(tags, o) {
+			return false
+		}
+	}
+	for a := range imports.KnownArch {
+		if strings.HasSuffix(stem, "_"+a) {
+			if !sel(tags, a) {
+				return false
+			}
+			rest := strings.TrimSuffix(stem, "_"+a)
+			for o := range imports.KnownOS {
+				if strings.HasSuffix(rest, "_"+o) && !sel(tags, o) {
+					return false
+				}
+			}
+		}
+	}
+	return true
+}
+
+// goBuildMatchFile asks go/build whether the file name alone excludes the file for GOOS/GOARCH.
+// Only meaningful for ".go" names that go/build does not ignore outright ("_"/"." prefix).
+func goBuildMatchFile(name, goos, goarch string) (bool, bool) {
+	if !strings.HasSuffix(name, ".go") || strings.HasPrefix(name, "_") || strings.HasPrefix(name, ".") || strings.Count(name, ".") != 1 {
+		return false, false
+	}
+	ctxt := build.Context{GOOS: goos, GOARCH: goarch, Compiler: "gc",
+		OpenFile: func(string) (io.ReadCloser, error) { return io.NopCloser(strings.NewReader("package p\n")), nil }}
+	ok, err := ctxt.MatchFile("/d", name)
+	if err != nil {
+		return false, false
+	}
+	return ok, true
+}
+
+func osArchOf(ts []string) (string, string, bool) {
+	if len(ts) != 2 {
+		return "", "", false
+	}
+	goos, goarch := "", ""
+	for _, t := range ts {
+		switch t {
+		case "linux", "android", "windows":
+			goos = t
+		case "amd64", "arm64":
+			goarch = t
+		}
+	}
+	return goos, goarch, goos != "" && goarch != ""
+}
+
+func matchFileOracle(res *corr.Result, name string, ts []string, got bool) {
+	res.OracleChecked["C19"]++
+	tags := tagMap(ts)
+	in := "match " + corr.Hx([]byte(name)) + " " + encTags(ts)
+	if want := matchFileStatement(name, tags); got != want {
+		class := "matchfile-statement"
+		if !got && tags["android"] && strings.Contains(name, "_linux") {
+			class = "matchfile-android-linux"
+		}
+		res.Violate("C19", in, fmt.Sprintf("MatchFile(%q, %v) = %v, the statement gives %v", name, ts, got, want), class)
+	}
+	if goos, goarch, ok := osArchOf(ts); ok {
+		if ref, ok := goBuildMatchFile(name, goos, goarch); ok {
+			res.Distribution["matchfile-go/build-consulted"]++
+			if ref != got {
+				class := "matchfile-gobuild"
+				if !got && goos == "android" {
+					class = "matchfile-android-linux"
+				}
+				res.Violate("C19", in, fmt.Sprintf("MatchFile(%q, %v) = %v, go/build.Context{%s,%s}.MatchFile = %v", name, ts, got, goos, goarch, ref), class)
+			}
+		}
+	}
+}
+
+// ---------------------------------------------------------------- C19: ShouldBuild
+
+var sbVocab = []string{"linux", "android", "windows", "amd64", "cgo", "ignore", "foo"}
+var sbBadTags = []string{"", "a-b", "#", "foo#", "×", "\xff", "a b", "€", "fo\xc3", "²"}
+var sbOddTags = []string{"é", "a.b", "_x", "386", "٣", "世界", "Linux", "linux_2"}
+
+func genTerm(r *rand.Rand) string {
+	var t string
+	switch k := r.Intn(40); {
+	case k < 34:
+		t = sbVocab[r.Intn(len(sbVocab))]
+	case k < 37:
+		t = sbOddTags[r.Intn(len(sbOddTags))]
+	default:
+		t = sbBadTags[r.Intn(len(sbBadTags))]
+	}
+	switch k := r.Intn(12); {
+	case k < 4:
+		return "!" + t
+	case k == 4:
+		return "!!" + t
+	}
+	return t
+}
+
+func genBuildLine(r *rand.Rand) string {
+	var sb strings.Builder
+	sb.WriteString([]string{"// +build", "//+build", "//  +build", "//\t+build", "// +build"}[r.Intn(5)])
+	nopt := 1 + r.Intn(3)
+	if r.Intn(25) == 0 {
+		nopt = 0
+	}
+	for i := 0; i < nopt; i++ {
+		if r.Intn(120) == 0 {
+			sb.WriteString([]string{"\u00a0 ", "\u2003", "\u0085", " \u3000"}[r.Intn(4)]) // Unicode white space: strings.Fields splits here too
+		} else {
+			sb.WriteString([]string{" ", " ", " ", "\t", "  "}[r.Intn(5)])
+		}
+		nt := 1 + r.Intn(3)
+		for j := 0; j < nt; j++ {
+			if j > 0 {
+				sb.WriteString(",")
+			}
+			sb.WriteString(genTerm(r))
+		}
+		if r.Intn(30) == 0 {
+			sb.WriteString(",")
+		}
+	}
+	if r.Intn(10) == 0 {
+		sb.WriteString(" ")
+	}
+	return sb.String()
+}
+
+var sbPlainLines = []string{"// hello", "//", "// Copyright 2018", "// +buildx foo", "// + build foo", "//go:build ignore", "// build +build ignore", "//+builds", "// +Build ignore", "// +build ignore"}
+var sbBlankLines = []string{"", "", "", "", "  ", "\t", "\v", " \t ", "", "", "", "", "", "", "", "", "", "", "", "", "", "", "", "", "", "", "", "", "", "", "\u00a0 "}
+var sbEnders = []string{"package p", "// Package p is documented.\npackage p", "/* block */\npackage p", "/* +build ignore */\n\npackage p", "import \"x\"", "x", "package p\n\n// +build ignore\n\nvar x int", "/*\n// +build ignore\n\n*/\npackage p", "\"// +build ignore\"\n"}
+
+// genShouldBuild builds a file start: 0–4 comment lines (+build lines among them), blank lines placed
+// at random, then (or not) a blank line, then an ender; LF or CRLF; final newline or not.
+func genShouldBuild(r *rand.Rand) []byte {
+	var lines []string
+	n := r.Intn(5)
+	for i := 0; i < n; i++ {
+		if r.Intn(4) == 0 {
+			lines = append(lines, sbBlankLines[r.Intn(len(sbBlankLines))])
+		}
+		l := ""
+		if r.Intn(3) == 0 {
+			l = sbPlainLines[r.Intn(len(sbPlainLines))]
+		} else {
+			l = genBuildLine(r)
+		}
+		if r.Intn(8) == 0 {
+			l = []string{" ", "\t", "   "}[r.Intn(3)] + l
+		}
+		lines = append(lines, l)
+	}
+	switch r.Intn(5) {
+	case 0: // directly attached: the block has no blank line after it
+	case 1:
+		lines = append(lines, sbBlankLines[r.Intn(len(sbBlankLines))], sbBlankLines[r.Intn(len(sbBlankLines))])
+	default:
+		lines = append(lines, sbBlankLines[r.Intn(len(sbBlankLines))])
+	}
+	if r.Intn(8) != 0 {
+		lines = append(lines, sbEnders[r.Intn(len(sbEnders))])
+	}
+	nl := "\n"
+	if r.Intn(6) == 0 {
+		nl = "\r\n"
+	}
+	s := strings.Join(lines, nl)
+	if nl == "\r\n" {
+		s = strings.ReplaceAll(strings.ReplaceAll(s, "\r\n", "\n"), "\n", "\r\n")
+	}
+	if r.Intn(3) != 0 {
+		s += nl
+	}
+	return []byte(s)
+}
+
+func genSBTagSets(r *rand.Rand) [][]string {
+	sets := [][]string{nil, {"*"}, {"*", "ignore"}}
+	for i := 0; i < 3; i++ {
+		var s []string
+		for _, t := range sbVocab {
+			if r.Intn(3) == 0 {
+				s = append(s, t)
+			}
+		}
+		if r.Intn(6) == 0 {
+			s = append(s, "é")
+		}
+		if r.Intn(12) == 0 {
+			s = append(s, "*")
+		}
+		sets = append(sets, s)
+	}
+	return sets
+}
+
+func hasExoticSpace(b []byte) bool {
+	for _, r := range string(b) {
+		if r > 0x7f && unicode.IsSpace(r) {
+			return true
+		}
+	}
+	return false
+}
+
+// leadingBlockIndep: the lines of the leading run of blank and // lines, up to and including the
+// last blank line before the first other line (independent of implementation and model:
+// works on the split lines, no offsets).
+func leadingBlockIndep(content []byte) []string {
+	lines := strings.Split(string(content), "\n")
+	if len(lines) > 0 && lines[len(lines)-1] == "" {
+		lines = lines[:len(lines)-1] // nothing after the final newline
+	}
+	lastBlank := -1
+	for i, l := range lines {
+		t := strings.TrimSpace(l)
+		if t == "" {
+			lastBlank = i
+			continue
+		}
+		if !strings.HasPrefix(t, "//") {
+			break
+		}
+	}
+	return lines[:lastBlank+1]
+}
+
+var reWellFormedTerm = func(s string) bool {
+	s = strings.TrimPrefix(s, "!")
+	if s == "" {
+		return false
+	}
+	for i := 0; i < len(s); i++ {
+		c := s[i]
+		if !(c >= 'a' && c <= 'z' || c >= 'A' && c <= 'Z' || c >= '0' && c <= '9' || c == '_' || c == '.') {
+			return false
+		}
+	}
+	return true
+}
+
+func validTagStatement(s string) bool {
+	for _, c := range s {
+		if !unicode.IsLetter(c) && !unicode.IsDigit(c) && c != '_' && c != '.' {
+			return false
+		}
+	}
+	return s != ""
+}
+
+// termStatement: tag / !tag, malformed terms are false, android also satisfies linux,
+// with "*" every tag except "ignore" is both true and false.
+func termStatement(term string, tags map[string]bool) bool {
+	neg := false
+	if strings.HasPrefix(term, "!") {
+		neg = true
+		term = term[1:]
+	}
+	if !validTagStatement(term) {
+		return false // covers "", "!", "!!x" (the remaining "!x" has an invalid rune)
+	}
+	if tags["*"] && term != "ignore" {
+		return true
+	}
+	return sel(tags, term) != neg
+}
+
+func buildLineStatement(args []string, tags map[string]bool) bool {
+	for _, opt := range args {
+		all := true
+		for _, term := range strings.Split(opt, ",") {
+			if !termStatement(term, tags) {
+				all = false
+			}
+		}
+		if all {
+			return true
+		}
+	}
+	return false
+}
+
+func shouldBuildOracle(res *corr.Result, content []byte, ts []string, got bool) (nBuildLines int) {
+	if hasExoticSpace(content) {
+		res.Distribution["shouldbuild-oracle-skipped-exotic-space"]++
+		return 0
+	}
+	res.OracleChecked["C19"]++
+	tags := tagMap(ts)
+	in := "should " + corr.Hx(content) + " " + encTags(ts)
+	want, wantRef, refUsable := true, true, !tags["*"]
+	for _, l := range leadingBlockIndep(content) {
+		t := strings.TrimSpace(l)
+		if !strings.HasPrefix(t, "//") {
+			continue
+		}
+		f := strings.Fields(strings.TrimSpace(t[2:]))
+		if len(f) == 0 || f[0] != "+build" {
+			continue
+		}
+		nBuildLines++
+		if !buildLineStatement(f[1:], tags) {
+			want = false
+		}
+		// reference: go/build/constraint on the well-formed fragment
+		wf := len(f) > 1
+		for _, opt := range f[1:] {
+			for _, term := range strings.Split(opt, ",") {
+				if !reWellFormedTerm(term) {
+					wf = false
+				}
+			}
+		}
+		if !wf {
+			refUsable = false
+			continue
+		}
+		expr, err := constraint.Parse(t)
+		if err != nil {
+			refUsable = false
+			continue
+		}
+		if !expr.Eval(func(tag string) bool { return sel(tags, tag) }) {
+			wantRef = false
+		}
+	}
+	if got != want {
+		res.Violate("C19", in, fmt.Sprintf("ShouldBuild = %v, the statement gives %v (tags %v)", got, want, ts), "shouldbuild-statement")
+	}
+	if refUsable && nBuildLines > 0 {
+		res.Distribution["shouldbuild-constraint-consulted"]++
+		if got != wantRef {
+			res.Violate("C19", in, fmt.Sprintf("ShouldBuild = %v, go/build/constraint gives %v (tags %v)", got, wantRef, ts), "shouldbuild-constraint")
+		}
+	}
+	return nBuildLines
+}
+
+// checkDriverU compares the driver's letter-or-digit table with Go's unicode tables on the ranges it claims.
+func checkDriverU(res *corr.Result, model string) {
+	ranges := [][2]int{{0x80, 0x100}, {0x660, 0x66a}, {0x4e00, 0xa000}}
+	var cases []string
+	for _, rg := range ranges {
+		cases = append(cases, fmt.Sprintf("uni %d %d", rg[0], rg[1]))
+	}
+	out, err := mdl.Run(model, nil, cases, 1)
+	if err != nil {
+		res.Disagree("<driver uni>", "", err.Error())
+		return
+	}
+	for i, rg := range ranges {
+		var want []string
+		for c := rg[0]; c < rg[1]; c++ {
+			if unicode.IsLetter(rune(c)) || unicode.IsDigit(rune(c)) {
+				want = append(want, strconv.Itoa(c))
+			}
+		}
+		if w := strings.Join(want, ","); w != out[i] {
+			res.Disagree(cases[i], w[:min(len(w), 200)], out[i][:min(len(out[i]), 200)])
+		}
+	}
+}
+
+// syslistDrift records (as an observation, not a violation: the statement's "known" is anchored to
+// KnownOS/KnownArch) tokens that the toolchain's go/build treats as GOOS/GOARCH but /repo does not.
+func syslistDrift(res *corr.Result) {
+	cands := []string{"wasip1", "wasip2", "tamago", "none", "haiku", "fuchsia", "loong32", "riscv32", "ppc64be", "wasm32"}
+	var drift []string
+	for _, c := range cands {
+		if imports.KnownOS[c] || imports.KnownArch[c] {
+			continue
+		}
+		if ok, usable := goBuildMatchFile("x_"+c+".go", "linux", "amd64"); usable && !ok {
+			drift = append(drift, c)
+		}
+	}
+	for o := range imports.KnownOS {
+		if o == "linux" {
+			continue
+		}
+		if ok, usable := goBuildMatchFile("x_"+o+".go", "linux", "amd64"); usable && ok {
+			drift = append(drift, "-"+o)
+		}
+	}
+	sort.Strings(drift)
+	if len(drift) > 0 {
+		res.Observations = append(res.Observations, "syslist drift vs this toolchain's go/build (informational; token known to go/build but not to imports.KnownOS/KnownArch, '-' = the reverse): "+strings.Join(drift, " "))
+	}
+}
+
+// runC19 adds the MatchFile and ShouldBuild cases; returns number of non-trivial cases.
+func runC19(res *corr.Result, r *rand.Rand, tier, model string) int {
+	nontrivial := 0
+	// ---- MatchFile, exhaustive
+	names := mfNames()
+	sets := mfTagSets()
+	encSets := encTagSets(sets)
+	cases := make([]string, len(names))
+	for i, n := range names {
+		cases[i] = "matchm " + corr.Hx([]byte(n)) + " " + encSets
+	}
+	out, err := mdl.Run(model, nil, cases, 0)
+	if err != nil {
+		res.Disagree("<driver>", "", err.Error())
+		return 0
+	}
+	maps := make([]map[string]bool, len(sets))
+	for j, s := range sets {
+		maps[j] = tagMap(s)
+	}
+	for i, n := range names {
+		impl := make([]byte, len(sets))
+		anyFalse := false
+		for j := range sets {
+			got := imports.MatchFile(n, maps[j])
+			impl[j] = tf(got)
+			if !got {
+				anyFalse = true
+			}
+			matchFileOracle(res, n, sets[j], got)
+		}
+		if string(impl) != out[i] {
+			for j := range sets {
+				if j < len(out[i]) && out[i][j] != impl[j] {
+					res.Disagree("match "+corr.Hx([]byte(n))+" "+encTags(sets[j]), string(impl[j:j+1]), out[i][j:j+1])
+					break
+				}
+			}
+			if len(out[i]) != len(impl) {
+				res.Disagree(cases[i], string(impl), out[i])
+			}
+		}
+		res.Evaluations += len(sets)
+		if anyFalse {
+			nontrivial += len(sets)
+			res.Distribution["matchfile-name-with-significant-suffix"]++
+		}
+	}
+	res.Distribution["matchfile-names"] = len(names)
+	res.Distribution["matchfile-tagsets"] = len(sets)
+	res.Exhaustive = true
+	res.Extra["exhaustive_spaces"] = []string{fmt.Sprintf("MatchFile: all names of 1..4 '_'-joined segments from %q x extensions %q (%d names) x all %d subsets of %q plus {\"*\"}", mfSegs, mfExts, len(names), 1<<len(mfTagVocab), mfTagVocab)}
+	res.Samples = append(res.Samples, map[string]string{"case": cases[len(cases)/3], "model": out[len(cases)/3]})
+
+	// ---- ShouldBuild, generated
+	nsb := 50000
+	if tier == "thorough" {
+		nsb = 150000
+	}
+	var contents [][]byte
+	var tsets [][][]string
+	seen := map[string]bool{}
+	corpus := []string{
+		"// +build linux\n\npackage p\n", "// +build linux\npackage p\n", "// +build !linux\n\npackage p\n", "// +build ignore\n\npackage p\n",
+		"// +build linux,amd64 windows\n\n// +build !cgo\n\npackage p", "// +build !!linux\n\n", "// +build !\n\n", "// +build\n\n", "// +build ,\n\n",
+		"// +build linux\r\n\r\npackage p\r\n", "\n// +build foo\n \n// doc\npackage p", "// +build foo\n\n/* x */\n// +build ignore\n\n", "", "\n", "// +build foo",
+	}
+	for _, c := range corpus {
+		contents = append(contents, []byte(c))
+		tsets = append(tsets, genSBTagSets(r))
+		seen[c] = true
+	}
+	for len(contents) < nsb {
+		c := genShouldBuild(r)
+		if seen[string(c)] {
+			res.Distribution["shouldbuild-duplicate-skipped"]++
+			if res.Distribution["shouldbuild-duplicate-skipped"] > 50*nsb {
+				break
+			}
+			continue
+		}
+		seen[string(c)] = true
+		contents = append(contents, c)
+		tsets = append(tsets, genSBTagSets(r))
+	}
+	cases = make([]string, len(contents))
+	for i, c := range contents {
+		cases[i] = "shouldm " + corr.Hx(c) + " " + encTagSets(tsets[i])
+	}
+	out, err = mdl.Run(model, nil, cases, 0)
+	if err != nil {
+		res.Disagree("<driver>", "", err.Error())
+		return nontrivial
+	}
+	for i, c := range contents {
+		impl := make([]byte, len(tsets[i]))
+		nb := 0
+		for j, ts := range tsets[i] {
+			got := imports.ShouldBuild(c, tagMap(ts))
+			impl[j] = tf(got)
+			nb = max(nb, shouldBuildOracle(res, c, ts, got))
+			if !got {
+				res.Distribution["shouldbuild-false"]++
+			} else {
+				res.Distribution["shouldbuild-true"]++
+			}
+		}
+		if string(impl) != out[i] {
+			for j, ts := range tsets[i] {
+				if j >= len(out[i]) || out[i][j] != impl[j] {
+					m := "?"
+					if j < len(out[i]) {
+						m = out[i][j : j+1]
+					}
+					res.Disagree("should "+corr.Hx(c)+" "+encTags(ts), string(impl[j:j+1]), m)
+					break
+				}
+			}
+		}
+		res.Evaluations += len(tsets[i])
+		if nb > 0 {
+			nontrivial += len(tsets[i])
+			res.Distribution[fmt.Sprintf("shouldbuild-block-with-%d-build-lines", min(nb, 3))]++
+		} else {
+			res.Distribution["shouldbuild-block-without-build-lines"]++
+		}
+		if bytes.Contains(c, []byte("\r\n")) {
+			res.Distribution["shouldbuild-crlf"]++
+		}
+	}
+	res.Distribution["shouldbuild-contents"] = len(contents)
+	res.Samples = append(res.Samples, map[string]string{"case": cases[len(cases)/2], "model": out[len(cases)/2]})
+	return nontrivial
+}
+
+// ---------------------------------------------------------------- C18: ReadImports
+
+var bomBytes = []byte{0xef, 0xbb, 0xbf}
+
+func stripBOM(d []byte) []byte {
+	if bytes.HasPrefix(d, bomBytes) {
+		return d[3:]
+	}
+	return d
+}
+
+func errKind(err error) string {
+	switch {
+	case err == nil:
+		return "none"
+	case err.Error() == "syntax error":
+		return "syntax"
+	case strings.Contains(err.Error(), "NUL"):
+		return "nul"
+	}
+	return "other:" + err.Error()
+}
+
+type readResult struct {
+	imps     []string
+	buf      []byte
+	err      error
+	panicked string
+}
+
+func implRead(d []byte, report bool) (rr readResult) {
+	defer func() {
+		if p := recover(); p != nil {
+			rr.panicked = fmt.Sprint(p)
+		}
+	}()
+	var imps []string
+	buf, err := imports.ReadImports(bytes.NewReader(d), report, &imps)
+	return readResult{imps: imps, buf: buf, err: err}
+}
+
+func (rr readResult) line() string {
+	if rr.panicked != "" {
+		return "panic"
+	}
+	is := "_"
+	if len(rr.imps) > 0 {
+		hs := make([]string, len(rr.imps))
+		for i, s := range rr.imps {
+			hs[i] = corr.Hx([]byte(s))
+		}
+		is = strings.Join(hs, ",")
+	}
+	return "I=" + is + " B=" + corr.Hx(rr.buf) + " E=" + errKind(rr.err)
+}
+
+// parserImports: the import path literals go/parser sees (ImportsOnly), and whether it accepted.
+// "invalid import path" complaints are about the path's characters, not syntax: tolerated.
+func parserImports(src []byte, mode parser.Mode) (lits []string, ok bool) {
+	fset := token.NewFileSet()
+	f, err := parser.ParseFile(fset, "x.go", src, mode)
+	if f == nil {
+		return nil, false
+	}
+	if err != nil {
+		var el scanner.ErrorList
+		if !errors.As(err, &el) {
+			return nil, false
+		}
+		for _, e := range el {
+			if !strings.HasPrefix(e.Msg, "invalid import path") {
+				return nil, false
+			}
+		}
+	}
+	for _, s := range f.Imports {
+		lits = append(lits, s.Path.Value)
+	}
+	return lits, true
+}
+
+func eqStrs(a, b []string) bool {
+	if len(a) != len(b) {
+		return false
+	}
+	for i := range a {
+		if a[i] != b[i] {
+			return false
+		}
+	}
+	return true
+}
+
+// ---- grammar-based generator of valid file headers
+
+type hgen struct {
+	r      *rand.Rand
+	strict bool // false once something go/parser is known to refuse has been emitted
+}
+
+func (g *hgen) pick(ss ...string) string { return ss[g.r.Intn(len(ss))] }
+
+var commentBodies = []string{"", " c", " import \"fake\"", " `", " \"", " /* ", " é世", " +build ignore", "*", " a * b / c", "/", " package q", "**", " (", " )"}
+
+func (g *hgen) lineComment() string { return "//" + g.pick(commentBodies...) + "\n" }
+func (g *hgen) blockComment(multiline bool) string {
+	b := g.pick(commentBodies...)
+	if multiline && g.r.Intn(2) == 0 {
+		b += "\n" + g.pick(commentBodies...)
+	}
+	return "/*" + b + "*/"
+}
+
+// inline: white space that cannot end a statement.
+func (g *hgen) inline(min int) string {
+	var sb strings.Builder
+	n := min + g.r.Intn(3)
+	if g.r.Intn(2) == 0 && min == 0 {
+		n = 0
+	}
+	for i := 0; i < n; i++ {
+		switch k := g.r.Intn(10); {
+		case k < 6:
+			sb.WriteString(" ")
+		case k < 8:
+			sb.WriteString("\t")
+		default:
+			sb.WriteString(g.blockComment(false))
+		}
+	}
+	return sb.String()
+}
+
+// anySp: white space incl. newlines and comments but no semicolon (legal wherever a token may follow).
+func (g *hgen) anySp(min int) string {
+	var sb strings.Builder
+	n := min + g.r.Intn(3)
+	for i := 0; i < n; i++ {
+		switch k := g.r.Intn(12); {
+		case k < 4:
+			sb.WriteString(" ")
+		case k < 6:
+			sb.WriteString("\n")
+		case k == 6:
+			sb.WriteString("\r\n")
+		case k == 7:
+			sb.WriteString("\t")
+		case k < 10:
+			sb.WriteString(g.lineComment())
+		default:
+			sb.WriteString(g.blockComment(true))
+		}
+	}
+	return sb.String()
+}
+
+// term: statement terminator (newline, semicolon or line comment) with optional space around.
+func (g *hgen) term() string {
+	t := g.pick("\n", "\n", "\n", ";", ";\n", "\r\n", "\n\n", " ; ")
+	if g.r.Intn(4) == 0 {
+		t = g.lineComment()
+	}
+	pre := g.inline(0)
+	post := ""
+	if g.r.Intn(3) == 0 {
+		post = g.anySp(0)
+	}
+	return pre + t + post
+}
+
+var identPool = []string{"p", "main", "imports", "x1", "_x", "π", "世界", "P_2", "i", "importx", "packagex", "imp", "é"}
+var pathPool = []string{"a", "fmt", "os/exec", "github.com/x/y-z", "a.b/c_d", "é/世", "C", "x~y", "import", "a+b", "golang.org/x/tools/go/packages"}
+
+func (g *hgen) pathLit() string {
+	p := g.pick(pathPool...)
+	switch k := g.r.Intn(10); {
+	case k < 3:
+		return "`" + p + "`"
+	case k < 8:
+		return `"` + p + `"`
+	case k == 8: // escapes that decode to path characters
+		var sb strings.Builder
+		sb.WriteString(`"`)
+		for i := 0; i < len(p); i++ {
+			c := p[i]
+			if c < 0x80 && g.r.Intn(3) == 0 {
+				sb.WriteString(g.pick(fmt.Sprintf(`\x%02x`, c), fmt.Sprintf(`\%03o`, c), fmt.Sprintf(`\u%04x`, c), fmt.Sprintf(`\U%08x`, c)))
+			} else {
+				sb.WriteByte(c)
+			}
+		}
+		sb.WriteString(`"`)
+		return sb.String()
+	default: // legal string literals that are not legal import paths (parser: "invalid import path")
+		return g.pick(`"a\"b"`, `"a\\b"`, `""`, "``", `"a b"`, "`a\\`", `"\\"`, `"a\tb"`, "`a\"b`", `"a'b"`, `"\\\\"`, `"\"`+`"`)
+	}
+}
+
+func (g *hgen) spec() (src string, lit string) {
+	lit = g.pathLit()
+	switch k := g.r.Intn(10); {
+	case k < 5:
+		return lit, lit
+	case k < 7:
+		return g.pick(identPool...) + g.inline(0) + lit, lit
+	case k == 7:
+		return "_" + g.inline(0) + lit, lit
+	case k == 8:
+		return "." + g.inline(0) + lit, lit
+	default:
+		return "." + g.anySp(0) + lit, lit // no automatic semicolon after '.'
+	}
+}
+
+var tailDecls = []string{
+	"func f() {}\n", "var x = \"import\"\n", "const c = `import \"fake\"`\n", "type T struct{}\n", "func main() { println(\"hi\") }\n",
+	"var (\n\ti = 1\n)\n", "const i = iota\n", "type import_ int\n", "func init() { /* import \"z\" */ }\n", "var _ = '\"'\n", "type i interface{}\n",
+	"func (t T) import2() {}\n", "var s = \"\\\"\"\n", "const (\n\tc0 = `\n\"`\n)\n",
+}
+
+// header generates: [BOM] sp "package" sp ident { term importDecl } then a tail of declarations
+// (or end of input).  Returns the source and the import literals in order.
+func (g *hgen) header() (src []byte, want []string, hasBOM bool) {
+	var sb strings.Builder
+	if g.r.Intn(5) == 0 {
+		sb.Write(bomBytes)
+		hasBOM = true
+	}
+	if g.r.Intn(2) == 0 {
+		sb.WriteString(g.anySp(0))
+	}
+	if g.r.Intn(6) == 0 {
+		sb.WriteString("// +build linux\n\n")
+	}
+	sb.WriteString("package")
+	if g.r.Intn(4) == 0 {
+		sb.WriteString(g.anySp(1))
+	} else {
+		sb.WriteString(g.inline(1))
+	}
+	sb.WriteString(g.pick(identPool...))
+	ndecl := g.r.Intn(4)
+	if g.r.Intn(3) == 0 {
+		ndecl = 1
+	}
+	for i := 0; i < ndecl; i++ {
+		sb.WriteString(g.term())
+		sb.WriteString("import")
+		if g.r.Intn(3) == 0 { // grouped
+			sb.WriteString(g.anySp(0))
+			sb.WriteString("(")
+			n := g.r.Intn(4)
+			for j := 0; j < n; j++ {
+				sb.WriteString(g.anySp(0))
+				s, lit := g.spec()
+				sb.WriteString(s)
+				want = append(want, lit)
+				if j < n-1 || g.r.Intn(2) == 0 {
+					sb.WriteString(g.term())
+				}
+			}
+			sb.WriteString(g.anySp(0))
+			sb.WriteString(")")
+		} else {
+			s, lit := g.spec()
+			c := s[0]
+			sep := g.anySp(0)
+			if c != '"' && c != '`' && c != '.' && sep == "" {
+				sep = " "
+			}
+			if g.r.Intn(2) == 0 && sep == "" && c != '_' {
+				sep = ""
+			}
+			sb.WriteString(sep)
+			sb.WriteString(s)
+			want = append(want, lit)
+		}
+	}
+	switch k := g.r.Intn(10); {
+	case k == 0: // end of input right after the header
+	case k == 1:
+		sb.WriteString(g.pick("\n", " ", "\n\n", ";", "\n// end", "\n// end\n", " /* end */", "\r\n"))
+	default:
+		sb.WriteString(g.term())
+		n := 1 + g.r.Intn(3)
+		for i := 0; i < n; i++ {
+			sb.WriteString(g.pick(tailDecls...))
+		}
+		if g.r.Intn(6) == 0 {
+			sb.WriteString(g.pick("import \"late\"\n", "}}}", "\x00", "/* open", "\"open", "`open"))
+		}
+	}
+	return []byte(sb.String()), want, hasBOM
+}
+
+var malformedAlphabet = []byte("pkgimort \"(`)/*\n;._\\\x00x")
+var corruptBytes = []byte{0, '"', '`', '/', '*', '\n', '(', ')', 'i', ';', '\\', ' ', 0xff, '.', '_', 'x'}
+
+func (g *hgen) malformed() []byte {
+	r := g.r
+	switch k := r.Intn(10); {
+	case k < 2: // random bytes over a small relevant alphabet
+		n := r.Intn(24)
+		b := make([]byte, n)
+		for i := range b {
+			b[i] = malformedAlphabet[r.Intn(len(malformedAlphabet))]
+		}
+		if r.Intn(2) == 0 {
+			b = append([]byte("package p\nimport "), b...)
+		}
+		return b
+	case k == 2: // uniformly random bytes
+		n := r.Intn(20)
+		b := make([]byte, n)
+		for i := range b {
+			b[i] = byte(r.Intn(256))
+		}
+		return b
+	}
+	src, _, _ := g.header()
+	if len(src) == 0 {
+		return src
+	}
+	switch k := r.Intn(7); k {
+	case 0, 1: // truncation
+		return src[:r.Intn(len(src)+1)]
+	case 2, 3: // single byte corruption
+		b := append([]byte{}, src...)
+		b[r.Intn(len(b))] = corruptBytes[r.Intn(len(corruptBytes))]
+		return b
+	case 4: // insertion
+		i := r.Intn(len(src) + 1)
+		b := append([]byte{}, src[:i]...)
+		b = append(b, corruptBytes[r.Intn(len(corruptBytes))])
+		return append(b, src[i:]...)
+	case 5: // deletion
+		i := r.Intn(len(src))
+		return append(append([]byte{}, src[:i]...), src[i+1:]...)
+	default: // unterminated comment / string spliced in
+		i := r.Intn(len(src) + 1)
+		return append(append([]byte{}, src[:i]...), g.pick("/*", "\"", "`", "//", "/", "import (", "import")...)
+	}
+}
+
+var tokAlphabet = []string{"package", "import", "x", ".", "(", ")", ";", "\n", `"s"`, "`r`", "//c\n", "/*c*/", "\xef\xbb\xbf"}
+
+func enumTokens(maxLen int, f func([]byte)) {
+	var rec func(prefix []string)
+	rec = func(prefix []string) {
+		if len(prefix) > 0 {
+			f([]byte(strings.Join(prefix, " ")))
+			f([]byte(strings.Join(prefix, "")))
+		}
+		if len(prefix) == maxLen {
+			return
+		}
+		for _, t := range tokAlphabet {
+			rec(append(prefix, t))
+		}
+	}
+	rec(nil)
+}
+
+// readOracle checks C18 on the implementation for one input; wantLits != nil when the generator knows the imports.
+func readOracle(res *corr.Result, d []byte, wantLits []string, generatedValid bool) (nontrivial bool) {
+	res.OracleChecked["C18"]++
+	in := "read " + corr.Hx(d) + " 0"
+	body := stripBOM(d)
+	r0 := implRead(d, false)
+	r1 := implRead(d, true)
+	if r0.panicked != "" || r1.panicked != "" {
+		res.Violate("C18", in, "ReadImports panics: "+r0.panicked+r1.panicked, "read-panic")
+		return true
+	}
+	for _, rr := range []readResult{r0, r1} {
+		if !bytes.HasPrefix(body, rr.buf) {
+			class := "read-not-prefix"
+			if bytes.HasPrefix(d, bomBytes) {
+				class = "read-bom"
+			}
+			res.Violate("C18", in, "returned bytes are not a prefix of the input (byte-order mark aside)", class)
+		}
+	}
+	if errKind(r1.err) == "syntax" {
+		nontrivial = true
+		res.Distribution["read-syntax-error"]++
+		if bytes.IndexByte(body, 0) >= 0 {
+			// a NUL byte is a hard error of its own ("unexpected NUL in input", reported whatever
+			// reportSyntaxError says, as in go/build): the whole-input clause is about syntax errors only.
+			res.Distribution["read-syntax-error-with-nul-exempt"]++
+			if !(r0.err == nil && bytes.Equal(r0.buf, body)) && errKind(r0.err) != "nul" {
+				res.Violate("C18", in, "syntax error not requested, input with NUL: neither the whole input nor the NUL error", "read-syntax-not-whole")
+			}
+		} else if r0.err != nil || !bytes.Equal(r0.buf, body) {
+			class := "read-syntax-not-whole"
+			if bytes.HasPrefix(d, bomBytes) && bytes.Equal(r0.buf, d) {
+				class = "read-bom"
+			}
+			res.Violate("C18", in, fmt.Sprintf("syntax error not requested: want whole input and nil error, got %d of %d bytes, err=%v", len(r0.buf), len(body), r0.err), class)
+		}
+	}
+	if errKind(r1.err) == "nul" {
+		res.Distribution["read-nul-error"]++
+	}
+	// agreement with go/parser whenever the file is valid Go (full parse) or was generated as valid
+	_, fullOK := parserImports(d, parser.SkipObjectResolution)
+	pl, impOK := parserImports(d, parser.ImportsOnly)
+	if generatedValid && !impOK {
+		// the generator is the grammar: it must only emit headers go/parser accepts
+		res.Observations = append(res.Observations, "generator emitted a header go/parser (ImportsOnly) refuses: "+corr.Hx(d))
+		res.Distribution["read-generator-refused-by-parser"]++
+	}
+	if (generatedValid || fullOK) && impOK {
+		nontrivial = true
+		res.Distribution["read-parser-consulted"]++
+		if wantLits != nil && !eqStrs(wantLits, pl) {
+			res.Observations = append(res.Observations, "generator's own import list differs from go/parser's: "+corr.Hx(d))
+		}
+		bomClass := func(c string) string {
+			if bytes.HasPrefix(d, bomBytes) {
+				return "read-bom"
+			}
+			return c
+		}
+		for _, rr := range []readResult{r0, r1} {
+			if rr.err != nil {
+				res.Violate("C18", in, "valid file, but ReadImports returns error "+rr.err.Error(), bomClass("read-valid-error"))
+				break
+			}
+			if !eqStrs(rr.imps, pl) {
+				res.Violate("C18", in, fmt.Sprintf("imports %q, go/parser %q", rr.imps, pl), bomClass("read-imports-differ"))
+				break
+			}
+			pp, ok := parserImports(rr.buf, parser.ImportsOnly)
+			if !ok || !eqStrs(pp, pl) {
+				res.Violate("C18", in, fmt.Sprintf("returned prefix does not parse to the same imports: %q vs %q", pp, pl), bomClass("read-prefix-reparse"))
+				break
+			}
+		}
+		if len(pl) > 0 {
+			res.Distribution["read-valid-with-imports"]++
+		}
+	}
+	return nontrivial
+}
+
+// ioErrOracle: a reader failing after n bytes — no panic, returned bytes are what was read, error surfaces.
+func ioErrOracle(res *corr.Result, d []byte, n int) {
+	res.OracleChecked["C18"]++
+	boom := errors.New("boom")
+	func() {
+		defer func() {
+			if p := recover(); p != nil {
+				res.Violate("C18", "read "+corr.Hx(d)+" 0", fmt.Sprintf("ReadImports panics on a failing reader after %d bytes: %v", n, p), "read-ioerr-panic")
+			}
+		}()
+		var imps []string
+		rd := io.MultiReader(bytes.NewReader(d[:n]), iotest.ErrReader(boom))
+		buf, err := imports.ReadImports(rd, false, &imps)
+		if !bytes.HasPrefix(stripBOM(d[:n]), buf) && !bytes.HasPrefix(d[:n], buf) {
+			res.Violate("C18", "read "+corr.Hx(d)+" 0", "failing reader: returned bytes were not read from the input", "read-ioerr-prefix")
+		}
+		_ = err
+	}()
+}
+
+func runC18(res *corr.Result, r *rand.Rand, tier, model string) int {
+	g := &hgen{r: r}
+	type rcase struct {
+		d     []byte
+		want  []string
+		valid bool
+	}
+	var cs []rcase
+	seen := map[string]bool{}
+	add := func(d []byte, want []string, valid bool) {
+		if seen[string(d)] {
+			return
+		}
+		seen[string(d)] = true
+		cs = append(cs, rcase{append([]byte{}, d...), want, valid})
+	}
+	// corpus: witnesses of past findings first
+	add([]byte("\xef\xbb\xbfpackage p\nimport \"a\"\nfunc f() {}\n"), []string{`"a"`}, true)
+	add([]byte("\xef\xbb\xbfpackage p\n\nimport (\n\t\"a\"\n\tb `c`\n)\n"), []string{`"a"`, "`c`"}, true)
+	add([]byte("\xef\xbb\xbf"), nil, false)
+	add([]byte("\xef\xbb"), nil, false)
+	add([]byte("package p\nimport \"a\"\nimport . \"b\"\nimport _ `c`\nimport x \"d\"\nvar v int\n"), []string{`"a"`, `"b"`, "`c`", `"d"`}, true)
+	for _, s := range []string{"", "package", "package p", "package p;import", "package p\nimport(", "package p\nimport \"a", "package p\nimport `a", "package p /*", "package p //", "package p\x00", "package p\nimport \"a\\", "package p\nimport \"a\n\"", "x", "package p\nimport \"a\"\nimport", "package p\nimport . . \"a\"", "package p import \"a\"", "package pimport \"a\"", "package p;import\"a\";import`b`;import(\"c\");func"} {
+		add([]byte(s), nil, false)
+	}
+	nvalid, nmal, tokLen := 15000, 15000, 4
+	if tier == "thorough" {
+		nvalid, nmal, tokLen = 300000, 300000, 5
+	}
+	enumTokens(tokLen, func(b []byte) { add(b, nil, false) })
+	nEnum := len(cs)
+	for i := 0; i < nvalid; i++ {
+		src, want, _ := g.header()
+		add(src, want, true)
+	}
+	for i := 0; i < nmal; i++ {
+		add(g.malformed(), nil, false)
+	}
+	cases := make([]string, 0, 2*len(cs))
+	for _, c := range cs {
+		h := corr.Hx(c.d)
+		cases = append(cases, "read "+h+" 0", "read "+h+" 1")
+	}
+	out, err := mdl.Run(model, nil, cases, 0)
+	if err != nil {
+		res.Disagree("<driver>", "", err.Error())
+		return 0
+	}
+	nontrivial := 0
+	for i, c := range cs {
+		for k, report := range []bool{false, true} {
+			impl := implRead(c.d, report).line()
+			if impl != out[2*i+k] {
+				res.Disagree(cases[2*i+k], impl, out[2*i+k])
+			}
+		}
+		if readOracle(res, c.d, c.want, c.valid) {
+			nontrivial++
+		}
+		if c.valid {
+			res.Distribution["read-generated-valid"]++
+			if bytes.HasPrefix(c.d, bomBytes) {
+				res.Distribution["read-generated-valid-with-bom"]++
+			}
+			res.Distribution[fmt.Sprintf("read-generated-imports=%d", min(len(c.want), 5))]++
+		}
+		if i%50 == 0 && len(c.d) > 0 {
+			ioErrOracle(res, c.d, r.Intn(len(c.d)+1))
+		}
+	}
+	res.Evaluations += len(cases)
+	res.Distribution["read-inputs"] = len(cs)
+	res.Distribution["read-token-sequences-enumerated"] = nEnum
+	if es, ok := res.Extra["exhaustive_spaces"].([]string); ok {
+		res.Extra["exhaustive_spaces"] = append(es, fmt.Sprintf("ReadImports: all sequences of 1..%d tokens from %q, joined by a blank and joined directly", tokLen, tokAlphabet))
+	}
+	mid := 2 * (nEnum + nvalid/2)
+	if mid < len(cases) {
+		res.Samples = append(res.Samples, map[string]string{"case": cases[mid], "model": out[mid]})
+	}
+	res.Samples = append(res.Samples, map[string]string{"case": cases[0], "model": out[0]})
+	return nontrivial
+}
+
+// replayOne runs a single case line (as stored in Violation.Input / Disagreement.Case).
+func replayOne(res *corr.Result, model, c string) {
+	f := strings.Split(c, " ")
+	out, err := mdl.Run(model, nil, []string{c}, 1)
+	if err != nil || len(f) != 3 {
+		res.Disagree(c, "", fmt.Sprint("replay: ", err))
+		return
+	}
+	res.Evaluations = 1
+	switch f[0] {
+	case "match":
+		name, ts := string(corr.Unhx(f[1])), decTags(f[2])
+		got := imports.MatchFile(name, tagMap(ts))
+		if boolStr(got) != out[0] {
+			res.Disagree(c, boolStr(got), out[0])
+		}
+		matchFileOracle(res, name, ts, got)
+	case "should":
+		content, ts := corr.Unhx(f[1]), decTags(f[2])
+		got := imports.ShouldBuild(content, tagMap(ts))
+		if boolStr(got) != out[0] {
+			res.Disagree(c, boolStr(got), out[0])
+		}
+		shouldBuildOracle(res, content, ts, got)
+	case "read":
+		d := corr.Unhx(f[1])
+		impl := implRead(d, f[2] == "1").line()
+		if impl != out[0] {
+			res.Disagree(c, impl, out[0])
+		}
+		readOracle(res, d, nil, false)
+	}
+}
 
 func runImports(tier string, seed int64, model string, replay string) *corr.Result {
-	return corr.NewResult("imports", tier, seed)
+	res := corr.NewResult("imports", tier, seed)
+	if replay != "" {
+		replayOne(res, model, replay)
+		return res
+	}
+	r := rand.New(rand.NewSource(seed))
+	checkDriverU(res, model)
+	syslistDrift(res)
+	n19 := runC19(res, r, tier, model)
+	n18 := runC18(res, r, tier, model)
+	res.DistinctNontrivial = n19 + n18
+	res.Extra["nontrivial_C19"] = n19
+	res.Extra["nontrivial_C18"] = n18
+	res.Rule = "C19: (name, tag set) pairs whose name has a suffix that makes MatchFile false for at least one tag set, and (content, tag set) pairs whose leading block holds at least one +build line; " +
+		"C18: distinct inputs that are generated valid headers / fully valid Go files (go/parser consulted) or raise a syntax error (whole-input clause exercised). " +
+		"Every case is run on implementation and Lean model and compared (MatchFile/ShouldBuild verdicts; ReadImports imports, returned bytes, error kind, for both reportSyntaxError values)"
+	return res
 }
